@@ -35,7 +35,7 @@ class Unsupported(Exception):
     pass
 
 
-LEAN_T = {"DF": "List Rat", "DI": "List Int", "FN2": "Rat → Rat → Rat", "OE": "Option Ev", "I": "Int", "F": "Rat", "B": "Bool", "L": "List Int", "S": "String", "OF": "Option Rat", "E": "Ev", "LE": "List Ev"}
+LEAN_T = {"FN1": "Rat → Rat", "DF": "List Rat", "DI": "List Int", "FN2": "Rat → Rat → Rat", "OE": "Option Ev", "I": "Int", "F": "Rat", "B": "Bool", "L": "List Int", "S": "String", "OF": "Option Rat", "E": "Ev", "LE": "List Ev"}
 IDENT = {"float", "JulianDate", "ScenarioTime", "cls"}
 
 
@@ -94,7 +94,7 @@ class FnTr:
         if ta == "I" and tb == "I" and sym != "/":
             return f"({a} {sym} {b})", "I"
         fa, fb = self.toF(a, ta), self.toF(b, tb)
-        if self.mode == "exact":
+        if self.mode in ("exact", "decimal"):
             return f"({fa} {sym} {fb})", "F"
         fn = {"+": "fadd", "-": "fsub", "*": "fmul", "/": "fdiv"}[sym]
         return f"({fn} {fa} {fb})", "F"
@@ -143,9 +143,15 @@ class FnTr:
             if isinstance(n.value, int):
                 return f"({n.value} : Int)", "I"
             if isinstance(n.value, float):
+                if self.mode == "decimal":
+                    # the literal as written (its shortest decimal form), not its binary64 value: the level of the sidereal-time model
+                    f = Fraction(repr(n.value))
+                    return (f"(({f.numerator} : Rat) / {f.denominator})" if f.denominator != 1 else f"({f.numerator} : Rat)"), "F"
                 return frac_lit(n.value), "F"
             raise Unsupported(f"constant {n.value!r}")
         if isinstance(n, ast.Name):
+            if n.id in self.consts and n.id not in env:
+                return self.consts[n.id]
             if n.id in env:
                 return (f"({self.v(n.id)} = true)" if env[n.id] == "B" else self.v(n.id)), env[n.id]
             raise Unsupported(f"unknown name {n.id}")
@@ -175,6 +181,10 @@ class FnTr:
         if isinstance(n, ast.UnaryOp) and isinstance(n.op, ast.USub):
             e, t = self.expr(n.operand, env)
             return f"(-{e})", t
+        if isinstance(n, ast.BinOp) and isinstance(n.op, ast.Pow) and isinstance(n.right, ast.Constant) and isinstance(n.right.value, int) \
+                and 0 <= n.right.value <= 8 and self.mode in ("exact", "decimal"):
+            a, ta = self.expr(n.left, env)
+            return (f"({a} ^ {n.right.value})", ta) if ta == "I" else (f"({self.toF(a, ta)} ^ {n.right.value})", "F")
         if isinstance(n, ast.BinOp):
             if isinstance(n.op, ast.BitAnd):
                 a, ta = self.expr(n.left, env)
@@ -238,7 +248,7 @@ class FnTr:
         if f == "int" and len(args) == 1:
             e, t = args[0]
             return (e, "I") if t == "I" else (f"(ftrunc {e})", "I")
-        if f == "round" and len(args) == 1:
+        if f in ("round", "around") and len(args) == 1:  # numpy.around and Python's round: half to even
             e, t = args[0]
             return (e, "I") if t == "I" else (f"(fround {e})", "I")
         if f == "remainder" and len(args) == 2:
@@ -353,11 +363,14 @@ class FnTr:
             body = self.block(s.body, env_b, lambda e: tupv, ind + 2)
             return (f"let {tupv} := {it}.foldl (fun {tupv} {self.v(s.target.id)} =>\n{pad}    ({body})) {tupv};\n{pad}"
                     + self.block(rest, env, tail, ind))
+        if isinstance(s, ast.Raise) and getattr(self, "raises_none", False):
+            return "none"  # the function's result is an Option: `none` where the code raises
         if isinstance(s, ast.Return):
             if isinstance(s.value, ast.Tuple):
                 parts = [self.expr(x, env) for x in s.value.elts]
                 self.ret_type = tuple(t for _, t in parts)
-                return "(" + ", ".join((f"decide {e}" if t == "B" else e) for e, t in parts) + ")"
+                tup = "(" + ", ".join((f"decide {e}" if t == "B" else e) for e, t in parts) + ")"
+                return f"some {tup}" if getattr(self, "raises_none", False) else tup
             e, t = self.expr(s.value, env)
             self.ret_type = t
             return f"decide {e}" if t == "B" else e
@@ -395,6 +408,8 @@ class FnTr:
                 return f"let {nm} : List Int := pySet {nm} {i} {e};\n{pad}" + self.block(rest, env, tail, ind)
             raise Unsupported("assignment target")
         if isinstance(s, ast.AugAssign):
+            if not isinstance(s.target, ast.Name):
+                raise Unsupported(f"augmented assignment to {ast.unparse(s.target)}")
             cur = ast.Name(id=s.target.id, ctx=ast.Load())
             new = ast.Assign(targets=[ast.Name(id=s.target.id, ctx=ast.Store())], value=ast.BinOp(left=cur, op=s.op, right=s.value))
             return self.block([new] + rest, env, tail, ind)
@@ -414,13 +429,18 @@ class FnTr:
             c, tc = self.expr(test, env)
             if tc != "B":
                 raise Unsupported("non-boolean test")
-            if any(isinstance(x, ast.Raise) for x in s.body):
+            if any(isinstance(x, ast.Raise) for x in s.body) and not getattr(self, "raises_none", False):
                 if s.orelse or ind != 1:
                     raise Unsupported("raise outside a top-level guard")
-                binds = "".join(b for nm, b in self._binds if re.search(r"\b" + re.escape(nm) + r"\b", c))
+                need, keep = c, []
+                for nm, b in reversed(self._binds):  # a bound name the test mentions, and whatever its own definition mentions
+                    if re.search(r"\b" + re.escape(nm) + r"\b", need):
+                        keep.append(b)
+                        need += " " + b
+                binds = "".join(reversed(keep))
                 self.guards.append(f"{binds}decide (¬ {c})")
                 return self.block(rest, env, tail, ind)
-            if any(isinstance(x, (ast.Return, ast.Continue)) for x in ast.walk(s)):
+            if any(isinstance(x, (ast.Return, ast.Continue, ast.Raise)) for x in ast.walk(s)):
                 # if c: return a   (rest is the else branch; a branch that does not return or continue goes on with the rest)
                 a = self.block(s.body + rest, env, tail, ind + 1)
                 b = self.block((s.orelse or []) + rest, env, tail, ind + 1)
@@ -490,7 +510,8 @@ class FnTr:
         ps = " ".join(f"({self.v(a)} : {lean_ty(t)})" for a, t in self.params + self.extra_params)
         out = "".join(self.aux)
         out += f"/-- `{self.fdef.name}` (line {self.fdef.lineno}), translated statement by statement -/\n"
-        out += f"def {self.lean_name} {ps} : {lean_ty(self.ret_type)} :=\n  {body}\n"
+        rty = f"Option ({lean_ty(self.ret_type)})" if getattr(self, "raises_none", False) else lean_ty(self.ret_type)
+        out += f"def {self.lean_name} {ps} : {rty} :=\n  {body}\n"
         if self.guards:
             out += f"\n/-- the inputs `{self.fdef.name}` accepts (none of its `raise` guards fires) -/\n"
             out += f"def {self.lean_name}_accepts {ps} : Bool :=\n  " + " &&\n  ".join(f"({g})" for g in self.guards) + "\n"
@@ -579,6 +600,15 @@ TARGETS = {
              {"params": [("d12", "F"), ("n1sq", "F"), ("n2sq", "F"), ("R2", "F")],
               "consts": {"dot(eci_position_1, eci_position_2)": ("d12", "F"), "norm(eci_position_1) ** 2": ("n1sq", "F"),
                          "norm(eci_position_2) ** 2": ("n2sq", "F"), "Earth.radius ** 2": ("R2", "F")}}),
+            # the branch cascade of the visible-Sun fraction on the three angles and two distances it computes (C14; scales C13's radiation
+            # pressure and C02's solar flux); `sqrt` and `arccos` of the partial branch are function parameters
+            ("calculateSunVizFraction", "sunVizFraction", {"tgt_eci_position": "-", "sun_eci_position": "-"}, 0,
+             {"skip": ["sat_sun_vector"],
+              "params": [("a", "F"), ("b", "F"), ("c", "F"), ("sun_dist", "F"), ("sat_sun_dist", "F"), ("sqrt", "FN1"), ("arccos", "FN1")],
+              "known": {"sqrt": ("sqrt", ["F"], "F"), "arccos": ("arccos", ["F"], "F")},
+              "consts": {"arcsin(Sun.radius / norm(sat_sun_vector))": ("a", "F"), "arcsin(Earth.radius / norm(tgt_eci_position))": ("b", "F"),
+                         "safeArccos": ("c", "F"), "norm(sun_eci_position)": ("sun_dist", "F"), "norm(sat_sun_vector)": ("sat_sun_dist", "F"),
+                         "PI": ("RV.Generated.PI", "F")}}),
             ("ConicFoV.inFieldOfView", "conicInFieldOfView", {"self": "-", "pointing_sez": "-", "background_sez": "-"}, 0,
              {"file": "sensors/field_of_view.py", "params": [("angle", "F"), ("cone_angle", "F")],
               "consts": {"subtendedAngle": ("angle", "F"), "self.cone_angle": ("cone_angle", "F")}}),
@@ -662,6 +692,49 @@ TARGETS = {
                              {"event_scope": "I", "julian_date_lb": "F", "julian_date_ub": "F", "scope_instance_id": "OI"})}),
         ],
     },
+    "Lambert": {
+        # the discrete logic around the Lambert solvers (C20): which way round, and whether two observations belong to one pass
+        "file": "physics/orbit_determination/lambert.py",
+        "mode": "exact",
+        "fns": [
+            ("determineTransferDirection", "determineTransferDirection", {"position_vector": "-", "transit_time": "F"}, 0,
+             {"params": [("period", "F")], "consts": {"keplerThirdLaw": ("period", "F")}}),
+            # returns (inside one period, the transit time); a non-positive transit raises (the `_accepts` guard)
+            ("InitialOrbitDetermination.checkSinglePass", "checkSinglePass", {"self": "-", "ob1_eci": "-", "ob1_jdate": "F", "ob2_jdate": "F"}, 0,
+             {"file": "estimation/initial_orbit_determination.py", "skip": ["sma"], "params": [("period", "F")],
+              "consts": {"getPeriod": ("period", "F"), "DAYS2SEC": ("RV.Generated.DAYS2SEC", "F")},
+              "raises_none": True,
+              "object_state": ({}, set(), {"False": "(False, 0.0)", "transit_time": "(True, transit_time)"})}),
+        ],
+    },
+    "ScenarioRun": {
+        # how many steps `Scenario.propagateTo` takes towards a target Julian date, and when it refuses (C05, C09, C10)
+        "file": "scenario/scenario.py",
+        "mode": "f64",
+        "imports": ["RV.Generated.Stardate"],
+        "fns": [
+            ("Scenario.propagateTo", "propagateToSteps", {"self": "-", "target_time": "F"}, 0,
+             {"count_loop": True,
+              "params": [("jd0", "F"), ("clock_time", "F"), ("dt", "F")],
+              "consts": {"target_time.convertToScenarioTime(self.clock.julian_date_start)":
+                         ("(RV.Generated.Stardate.convertToScenarioTime target_time jd0)", "F"),
+                         "self.clock.time": ("clock_time", "F"), "self.physics_time_step": ("dt", "F")},
+              "object_state": ({}, {"self.logger.info", "self.logger.error"}, {})}),
+        ],
+    },
+    "Sidereal": {
+        # the sidereal-time polynomials (C04, C11), literals read as the decimals they are written as
+        "file": "physics/time/conversions.py",
+        "mode": "decimal",
+        "imports": ["RV.Generated.Maths"],
+        "fns": [
+            ("greenwichMeanTime", "greenwichMeanTime", {"julian_date": "F"}, 0,
+             {"consts": {"const.DEG2RAD": ("RV.Generated.DEG2RAD", "F")}}),
+            ("greenwichApparentTime", "greenwichApparentTime", {"year": "I", "elapsed_days": "F", "eq_equinox": "F"}, 0,
+             {"params": [("jd_jan1", "F")],
+              "consts": {"JulianDate.getJulianDate(year, 1, 1, 0, 0, 0)": ("jd_jan1", "F")}}),
+        ],
+    },
     "Conversions": {
         # the day count of the sidereal-time chain (C04, C11): month table, leap-year rule, the loop over the months
         "file": "physics/time/conversions.py",
@@ -669,6 +742,11 @@ TARGETS = {
         "fns": [
             ("dayOfYear", "dayOfYear", {"year": "I", "month": "I", "day": "I", "hour": "I", "minute": "I", "second": "F"}, 12),
             ("seconds2hms", "seconds2hms", {"total_seconds": "F"}, 0),
+            # `getJulianDate` as `utc2TerrestrialTime` calls it: hour and minute are the floats `seconds2hms` returns
+            ("JulianDate.getJulianDate", "getJulianDateF",
+             {"year": "I", "month": "I", "day": "I", "hour": "F", "minute": "F", "second": "F"}, 0, {"file": "physics/time/stardate.py"}),
+            ("utc2TerrestrialTime", "utc2TerrestrialTime",
+             {"year": "I", "month": "I", "day": "I", "hour": "I", "minute": "I", "second": "F", "delta_atomic_time": "F"}, 0),
         ],
     },
     "Prep": {
@@ -740,6 +818,12 @@ class _ObjectState(ast.NodeTransformer):
         if isinstance(node.value, ast.Call) and ast.unparse(node.value.func) in self.drop:
             return ast.Pass()
         self.generic_visit(node)
+        return node
+
+    def visit_If(self, node):
+        self.generic_visit(node)
+        if not node.orelse and all(isinstance(x, ast.Pass) for x in node.body):
+            return ast.Pass()  # a branch that only logged
         return node
 
     def visit_Return(self, node):
@@ -887,6 +971,22 @@ def generate(module):
             fdef = ast.parse(ast.unparse(fdef)).body[0]
             if not extra.get("keep_isinstance"):
                 pass
+        if extra.get("count_loop"):
+            # `if c: ...; for _ in range(n): <steps> else: raise` - the function's result is how many times the loop body runs: the loop
+            # becomes `return n`, and the refusing `else` branch becomes a guard in front (`if not c: raise`)
+            class _L(ast.NodeTransformer):
+                def visit_For(self, node):
+                    if isinstance(node.iter, ast.Call) and ast.unparse(node.iter.func) == "range" and len(node.iter.args) == 1:
+                        return ast.Return(value=node.iter.args[0])
+                    return node
+
+                def visit_If(self, node):
+                    self.generic_visit(node)
+                    if node.orelse and any(isinstance(x, ast.Raise) for x in node.orelse):
+                        return [ast.If(test=ast.UnaryOp(op=ast.Not(), operand=node.test), body=node.orelse, orelse=[]), *node.body]
+                    return node
+            fdef = _L().visit(fdef)
+            ast.fix_missing_locations(fdef)
         if "object_state" in extra:
             fdef = _ObjectState(*extra["object_state"]).visit(fdef)
             ast.fix_missing_locations(fdef)
@@ -896,6 +996,7 @@ def generate(module):
         tr.local_types = dict(extra.get("locals", {}))
         tr.skip_locals = set(extra.get("skip", []))
         tr.dq_maxlen = extra.get("dq_maxlen")
+        tr.raises_none = bool(extra.get("raises_none"))
         # a guard `if False: raise` left by the isinstance rewrite is dropped
         fdef.body = [s for s in fdef.body if not (isinstance(s, ast.If) and isinstance(s.test, ast.Constant) and s.test.value is False)]
         chunks.append(tr.translate())
